@@ -93,7 +93,7 @@ class Table:
             attrs['start_index'] = si
         if fill == 'int_fill':
             attrs['_FillValue'] = FILL_INT
-        self.variable = Variable(dims, arr, attrs, {})
+        self.variable = Variable(dims, arr, attrs, {'dtype': INT32, '_FillValue': FILL_INT} if fill == 'nan' else {})
 
 
 def _mesh(c, table, fill, si, tr):
